@@ -1270,7 +1270,7 @@ func runC07(c *Ctx) {
 	// 5. wild programs
 	nw := 2500
 	if c.Thorough() {
-		nw = 120000
+		nw = 600000
 	}
 	wo := evalOpts{maxDepth: 60, dur: 20 * time.Millisecond}
 	for i := 0; i < nw; i++ {
@@ -1294,8 +1294,8 @@ func runC07(c *Ctx) {
 	nm := 600
 	budget := 12 * time.Second
 	if c.Thorough() {
-		nm = 40000
-		budget = 6 * time.Minute
+		nm = 150000
+		budget = 8 * time.Minute
 	}
 	mo := evalOpts{maxDepth: 120, dur: 15 * time.Millisecond}
 	t0 := time.Now()
